@@ -36,8 +36,15 @@ def _fn_name(s):
         elif depth == 0:
             out.append(ch)
     n = ''.join(out).strip()
-    n = n.split(' ')[-1] if ' ' in n and not n.startswith('operator') else n
-    return n
+    n = re.sub(r'\[with.*$', '', n).strip()
+    n = re.sub(r'\[.*?\]', '', n).strip()
+    while n.endswith(' const') or n.endswith(' volatile'):
+        n = n.rsplit(' ', 1)[0].strip()
+    if 'operator' in n:
+        n = n[n.index('operator'):].replace(' ', '')
+    elif ' ' in n:
+        n = n.split(' ')[-1]
+    return n.replace('photospline::', '')
 
 
 RUNTIME_FRAMES = ('__interceptor', '__asan', '__ubsan', '__sanitizer', '__lsan', '__tsan', 'operator new', 'operator delete',
